@@ -127,6 +127,9 @@ type ServerOpts struct {
 	Sid          string
 	User         string
 	Dev          Dev
+	// OnMethod, if set, runs the server half of a method other than CLAIMTOBE when it
+	// is selected; it returns the method name and the identity established.
+	OnMethod func(ctx context.Context, st *stream.Stream, sel int) (method, user string, err error)
 	// OnResume handles a resumption request; nil = reply SID_NOT_FOUND when asked.
 	OnResume func(ctx context.Context, st *stream.Stream, ad *classad.ClassAd, rec *Record) error
 }
@@ -283,6 +286,24 @@ func Server(ctx context.Context, st *stream.Stream, o ServerOpts) (rec *Record) 
 			rec.step("selected %#x", sel)
 			if sel == 0 {
 				continue
+			}
+			if sel != BitClaimToBe && o.OnMethod != nil {
+				// a scenario-supplied server half of another method (e.g. a scripted FS server)
+				name, user, err := o.OnMethod(ctx, st, sel)
+				if err != nil {
+					rec.step("scripted method %#x failed: %v", sel, err)
+					rec.Err = fmt.Errorf("scripted method %#x: %w", sel, err)
+					return
+				}
+				rec.AuthRan, rec.AuthUser = name, user
+				rec.step("%s completed (scripted)", name)
+				km := message.NewMessageForStream(st)
+				_ = km.PutInt(ctx, 0)
+				if err := km.FinishMessage(ctx); err != nil {
+					rec.Err = err
+					return
+				}
+				break
 			}
 			if sel != BitClaimToBe {
 				// the puppet only speaks CLAIMTOBE; for any other selection it waits to see what the client does
